@@ -169,6 +169,9 @@ def run_driver(run, tier, focus, drv, replay=None):
                 elif p["type"] == "hang":
                     what = p["sig"].get("what", "")
                     prop = "C05" if what == "cancelled-op-never-completes" else ("C02" if p["sig"].get("kind") != "blocking" else "C17")
+                    # locality: an operation starved after ANOTHER operation of the schedule was cancelled
+                    if focus == "C05" and prop == "C02" and any(s.get("act") in ("cancel", "fire") for s in (d.get("case") or {}).get("steps", [])):
+                        prop = "C05"
                     if p["sig"].get("action") == "poolrun":
                         prop = "C17"
                     if prop == focus:
@@ -191,6 +194,10 @@ def run_driver(run, tier, focus, drv, replay=None):
             for (line, kind, op) in viol:
                 prop = KIND2PROP.get(kind, "C01")
                 case, evs = case_of_line(tl, line)
+                # C05 (honest + local): a result/delivery violation in a run in which an operation had been
+                # cancelled before is also a cancellation failure (fabricated or duplicated outcome, neighbour hit)
+                if focus == "C05" and prop == "C02" and any(e["ev"] in ("cancelled", "pcancel", "cancelreq") for e in evs):
+                    prop = "C05"
                 desc = "driver=" + drv + " %s: contract monitor: %s for %s at trace line %d; last events: %s" % (
                     mode, kind, op, line, [(e["ev"], e["op"], e["a"]) for e in evs[-8:]])
                 rep = {"case": allcases[case] if case is not None and case < len(allcases) else None,
